@@ -69,6 +69,59 @@ def _worker(args):
     return res
 
 
+def _fuzz_worker(args):
+    """Coverage-guided shard: a fresh interpreter running pbt.fuzz (atheris takes over the process and never
+    returns), summarised through a JSON file."""
+    import re
+    import subprocess
+    _, prop, facet_name, tier, shard, nshards, base_seed, runs = args
+    t0 = time.time()
+    name = f"fuzz:{facet_name}"
+    os.makedirs(os.path.join(OUT, "tmp"), exist_ok=True)
+    fd, outp = tempfile.mkstemp(prefix=f"{prop}-{facet_name}-fuzz-{shard}-", suffix=".json", dir=os.path.join(OUT, "tmp"))
+    os.close(fd)
+    os.unlink(outp)
+    fseed = H.seed_for(base_seed, prop, name, shard) % (2 ** 31 - 1) + 1
+    res = {"facet": name, "shard": shard}
+    try:
+        r = subprocess.run([sys.executable, "-m", "pbt.fuzz", prop, facet_name, "--runs", str(max(50, runs // nshards)),
+                            "--seed", str(fseed), "--out", outp], cwd=H.VERIF, capture_output=True, text=True)
+        doc = None
+        if os.path.exists(outp):
+            with open(outp) as f:
+                doc = json.load(f)
+        if doc is None or r.returncode not in (0, 1) or (r.returncode == 1 and not doc.get("replay")):
+            res["harness_error"] = (f"pbt.fuzz exit {r.returncode}: " + ((doc or {}).get("message") or "") +
+                                    r.stdout[-800:] + r.stderr[-1500:])
+            return res
+        cov = re.findall(r"cov: (\d+) ft: (\d+)", r.stderr)
+        extra = dict(doc.get("extra") or {})
+        extra.update(fuzz_buffers=doc["buffers"], fuzz_undecodable=max(0, doc["undecodable"]))
+        if cov:
+            extra["fuzz_edges_covered_max_over_shards"] = int(cov[-1][0])
+            extra["fuzz_features_max_over_shards"] = int(cov[-1][1])
+        res.update(evaluations=doc["evaluations"], nontrivial=doc["nontrivial"], tags=doc["tags"], samples=doc["samples"],
+                   truncated=False, extra=extra, wall=time.time() - t0, hseed=fseed, lines={})
+        if r.returncode == 1:
+            # keep one replay file per shard
+            path = os.path.join(OUT, "replays", f"{prop}-{facet_name}-fuzz-s{base_seed}-{shard}.json")
+            os.replace(doc["replay"], path)
+            res["failure"] = {"replay": path, "message": doc.get("message") or "", "bucket": "fuzz"}
+    except Exception as e:  # noqa: BLE001
+        res["harness_error"] = f"{type(e).__name__}: {e}\n{traceback.format_exc()}"
+    finally:
+        if os.path.exists(outp):
+            os.unlink(outp)
+    return res
+
+
+def _dispatch(task):
+    return _fuzz_worker(task) if task[0] == "fuzz" else _worker(task)
+
+
+MAX_KEYS = ("fuzz_edges_covered_max_over_shards", "fuzz_features_max_over_shards")
+
+
 def load_known(prop):
     if not os.path.exists(KNOWN):
         return []
@@ -189,10 +242,26 @@ def main(argv=None):
             ns = 1
         for s in range(ns):
             tasks.append((prop, name, tier, s, ns, base_seed, n_override))
+    # coverage-guided shards (atheris) for the facets a module lists in FUZZ = {facet: {"quick": runs, "thorough": runs}}
+    fuzz_cfg = getattr(mod, "FUZZ", {}) if os.environ.get("VERIF_NO_FUZZ", "0") != "1" else {}
+    if fuzz_cfg and not os.path.isdir(os.path.join(H.VERIF, ".deps", "atheris")):
+        print(f"NOTE property={prop}: atheris is not installed under /verif/.deps (./setup.sh); coverage-guided shards skipped")
+        fuzz_cfg = {}
+    for name, cfg in fuzz_cfg.items():
+        if only and name not in only and f"fuzz:{name}" not in only:
+            continue
+        runs = cfg.get(tier, 0)
+        if n_override:
+            runs = min(runs, n_override)
+        if runs <= 0:
+            continue
+        ns = cfg.get("shards_" + tier, 1 if tier == "quick" else 4)
+        for s in range(ns):
+            tasks.append(("fuzz", prop, name, tier, s, ns, base_seed, runs))
     # longest first is unknown; interleave facets so shards of one facet do not serialise
     ctx = mp.get_context("fork")
     with ctx.Pool(min(nproc, max(1, len(tasks))), maxtasksperchild=1) as pool:
-        results = pool.map(_worker, tasks, chunksize=1)
+        results = pool.map(_dispatch, tasks, chunksize=1)
 
     per_facet = {}
     for r in results:
@@ -210,7 +279,7 @@ def main(argv=None):
         for k, v in r["tags"].items():
             pf["tags"][k] = pf["tags"].get(k, 0) + v
         for k, v in r["extra"].items():
-            pf["extra"][k] = pf["extra"].get(k, 0) + v
+            pf["extra"][k] = max(pf["extra"].get(k, 0), v) if k in MAX_KEYS else pf["extra"].get(k, 0) + v
         if len(pf["samples"]) < 3:
             pf["samples"].extend(r["samples"][: 3 - len(pf["samples"])])
         pf["truncated"] = pf["truncated"] or r["truncated"]
@@ -259,7 +328,14 @@ def main(argv=None):
     for name, p in per_facet.items():
         for s in p["samples"][:2]:
             samples.append({"facet": name, "case": s})
-    rules = "; ".join(f"{name}: {facets[name].rule}" for name in per_facet if facets[name].rule)
+    def base_facet(name):
+        return facets[name[5:]] if name.startswith("fuzz:") else facets[name]
+
+    def kind_of(name):
+        return "fuzz (atheris/libFuzzer coverage-guided bytes -> same strategy and oracle)" if name.startswith("fuzz:") \
+            else facets[name].kind
+
+    rules = "; ".join(f"{name}: {base_facet(name).rule}" for name in per_facet if base_facet(name).rule)
     evidence = {
         "property_id": prop,
         "tier": tier,
@@ -273,13 +349,13 @@ def main(argv=None):
             "exhaustive": False,
             "facets": {
                 name: {
-                    "kind": facets[name].kind,
+                    "kind": kind_of(name),
                     "evaluations": p["evaluations"],
                     "distinct_nontrivial": len(p["nontrivial"]),
                     "classes": dict(sorted(p["tags"].items())),
                     "extra": p["extra"],
                     "truncated": p["truncated"],
-                    "exhaustive": facets[name].kind == "enum",
+                    "exhaustive": kind_of(name) == "enum",
                     "wall_s": round(p["wall"], 2),
                     "cut_lines_executed_in_first_cases": {fn: H.compress_lines(l) for fn, l in sorted(p["lines"].items())
                                                           if not fn.endswith(("logging.py", "__init__.py"))},
